@@ -782,6 +782,7 @@ class Converter:
             # Edge case: no index specified. Eg. A[:, :]
             return self._emit1([target], "Identity", [var])
 
+        removed_axes: list[int] = []
         if sliced_indices or len(scalar_indices) > 1:
             # We emit a Slice operation if we have any indices like 1:5:2 or if the number of
             # scalar indices (like 2) is more than 1.
@@ -806,6 +807,7 @@ class Converter:
                 )
                 sliced_indices.append((axis, element))
             scalar_indices = []
+            removed_axes = list(squeezed_axes)
             for axis, element in sliced_indices:
                 axis_var = const_1d(axis)
                 inputs = translate_slice(element)
@@ -858,6 +860,9 @@ class Converter:
         else:
             result = var
         non_scalar_indices.extend(scalar_indices)
+        # A Gather with a rank-0 index removes its axis: index the highest axis first so that
+        # the axes still to be indexed keep their numbers.
+        non_scalar_indices.sort(key=lambda pair: pair[0], reverse=True)
         if non_scalar_indices:
             last_axis, _ = non_scalar_indices[-1]
         else:
@@ -865,7 +870,8 @@ class Converter:
             last_axis = None
         for axis, index_expr in non_scalar_indices:
             index_value = self._translate_expr(index_expr)
-            axis_attr = ir.AttrInt64("axis", axis)
+            # Axes squeezed above have already disappeared from the intermediate result.
+            axis_attr = ir.AttrInt64("axis", axis - sum(1 for a in removed_axes if a < axis))
             # use Gather to perform indexing
             # Assign gathered value to either temporary or final target
             if axis != last_axis:  # use temporary to store result of Gather
